@@ -70,6 +70,7 @@ func runC17(c *Check) {
 	c17PeerOffers(c)
 	c17StatusTransitions(c)
 	c17BlacklistRemoves(c)
+	c17CooldownEntries(c)
 }
 
 func c17TryGet(c *Check) {
@@ -472,4 +473,102 @@ func c17BlacklistRemoves(c *Check) {
 	res := gateWalkOpts(p, fn, targets, nil, enabled, removes)
 	c.Ob("R17.5", "blacklistPeers removes from the general pool unconditionally", len(removes) > 0 && !res.Reached, p.Pos(fn.Pos()),
 		"with blacklisting enabled every path through an iteration passes nodes.remove(peer): it does not depend on BlockPeer or ClosePeer succeeding", res.Witness...)
+}
+
+// c17CooldownEntries (R17.8): a pending cool-down entry and the status `cooldown`
+// go together. The only way out of `cooldown` that keeps the queue entry is its
+// own expiry (afterCooldown). Every other status change of a peer whose previous
+// status may be `cooldown` must drop the pending entry from the timed queue;
+// otherwise, when the peer is added and put on cool-down again, the expiry of the
+// earlier entry re-activates it before the later cool-down has elapsed.
+func c17CooldownEntries(c *Check) {
+	p := c.P
+	c.Rule("R17.8", "a peer leaves cool-down only by expiry, or its pending cool-down entry is dropped with the status change")
+	qrm := p.Func("share/shwap/p2p/shrex/peers", "timedQueue", "remove")
+	n := 0
+	for _, f := range p.FuncsOfPkg("share/shwap/p2p/shrex/peers") {
+		if recvName(rootFunc(f)) != "pool" || f.Name() == "afterCooldown" {
+			continue
+		}
+		for _, b := range f.Blocks {
+			for _, ins := range b.Instrs {
+				mu, ok := ins.(*ssa.MapUpdate)
+				if !ok {
+					continue
+				}
+				fld := fieldOfAddr(mu.Map)
+				if fld == nil || fld.Name() != "statuses" {
+					continue
+				}
+				k, isK := mu.Value.(*ssa.Const)
+				if !isK || statusConstName(p, k) == "cooldown" {
+					continue
+				}
+				n++
+				c.SawFunc(f)
+				// discharged on edges that establish "previous status is not cooldown"
+				notCooldown := func(bb *ssa.BasicBlock, ifi *ssa.If) (bool, bool) {
+					a := stripNot(ifi.Cond)
+					// `ok` of the status lookup: an absent peer has no status at all
+					if ex, isEx := a.Base.(*ssa.Extract); isEx && ex.Index == 1 {
+						if lk, isLk := ex.Tuple.(*ssa.Lookup); isLk && isStatusLookup(lk) {
+							// cut the edge on which ok is false
+							return a.Neg, !a.Neg
+						}
+					}
+					bo, ok := a.Base.(*ssa.BinOp)
+					if !ok || (bo.Op != token.EQL && bo.Op != token.NEQ) {
+						return false, false
+					}
+					var kk *ssa.Const
+					var other ssa.Value
+					if x, ok := bo.X.(*ssa.Const); ok {
+						kk, other = x, bo.Y
+					} else if y, ok := bo.Y.(*ssa.Const); ok {
+						kk, other = y, bo.X
+					}
+					name := statusConstName(p, kk)
+					if name == "" || !isStatusLookup(other) {
+						return false, false
+					}
+					eqOnTrue := (bo.Op == token.EQL) != a.Neg
+					if name == "cooldown" {
+						// the edge on which status != cooldown
+						return !eqOnTrue, eqOnTrue
+					}
+					// status == <other constant> implies not cooldown
+					return eqOnTrue, !eqOnTrue
+				}
+				drops := blocksWhere(f, func(i2 ssa.Instruction) bool {
+					g, ok := i2.(*ssa.Call)
+					return ok && qrm != nil && g.Call.StaticCallee() == qrm
+				})
+				// (1) was the previous status possibly cooldown when the store is reached?
+				reach := gateWalk(p, f, map[*ssa.BasicBlock]bool{b: true}, notCooldown, nil)
+				if !reach.Reached {
+					c.Ob("R17.8", fmt.Sprintf("%s: statuses[x]=%s", fnName(f), statusConstName(p, k)), true, p.Pos(mu.Pos()), "reached only when the previous status is not cooldown")
+					continue
+				}
+				// (2) then every way on from the store passes the drop of the pending entry,
+				// or an edge that establishes that the previous status was not cooldown
+				targets := map[*ssa.BasicBlock]bool{}
+				for _, r := range returnsOf(f) {
+					targets[r.Block()] = true
+				}
+				for _, bb := range f.Blocks {
+					if (bb.Comment == "rangeindex.loop" || bb.Comment == "rangeiter.loop") && bb != b {
+						targets[bb] = true
+					}
+				}
+				if drops[b] {
+					c.Ob("R17.8", fmt.Sprintf("%s: statuses[x]=%s", fnName(f), statusConstName(p, k)), true, p.Pos(mu.Pos()), "the pending cool-down entry is dropped in the same block")
+					continue
+				}
+				res := gateWalkFrom(p, f, b, targets, notCooldown, drops)
+				c.Ob("R17.8", fmt.Sprintf("%s: statuses[x]=%s", fnName(f), statusConstName(p, k)), !res.Reached, p.Pos(mu.Pos()),
+					"when the previous status may be cooldown, the status change is followed on every path by cooldown.remove(peer) (a stale entry would re-activate the peer ahead of a later cool-down)", res.Witness...)
+			}
+		}
+	}
+	c.Floor("R17.8", "status changes outside afterCooldown", n, 2)
 }
